@@ -153,9 +153,10 @@ def gen_program(rng, idx):
         return "probe:" + t.__name__[2:], t(rng, rng.randrange(1000, 9999))
     parts = []
     kinds = []
-    for _ in range(rng.randrange(1, 4)):
+    ns = rng.sample(range(1000, 9999), 3)       # distinct per program
+    for ti in range(rng.randrange(1, 4)):
         t = rng.choice(LAYOUT_CHANGING)
-        parts.append(t(rng, rng.randrange(1000, 9999)))
+        parts.append(t(rng, ns[ti]))
         kinds.append(t.__name__[2:])
     return "+".join(sorted(set(kinds))), "".join(parts)
 
